@@ -135,7 +135,10 @@ Proof.
       split; [reflexivity|]. split; [constructor; [cbn; lia|exact E2]|].
       cbn [weight_sum fold_right snd]. fold (weight_sum (map (fun ow0 => (Z.of_N (fst ow0), Z.of_N (snd ow0))) l0)).
       rewrite <- E1, E3. lia. }
-    destruct (K l R F) as [E1 [E2 E3]]. rewrite E1. split; [reflexivity|]. split; [exact E2|].
+    destruct (K l R F) as [E1 [E2 E3]].
+    change ((to_int32 (fst ow), to_int64 (snd ow)) :: map (fun ow0 : N * N => (to_int32 (fst ow0), to_int64 (snd ow0))) os)
+      with (map (fun ow0 : N * N => (to_int32 (fst ow0), to_int64 (snd ow0))) l).
+    rewrite E1. split; [reflexivity|]. split; [exact E2|].
     rewrite E3 in T. lia.
 Qed.
 
@@ -145,7 +148,8 @@ Corollary vote_option_cast_boundary_rejected d pid opt :
 Proof.
   intros [L U]. destruct (item_of_event (EVoted d pid opt)) as [m| |] eqn:E; [|reflexivity|].
   - apply item_fields_verbatim in E. destruct (E U) as [_ B]. assert (4 < 2 ^ 31) by (vm_compute; reflexivity). lia.
-  - unfold item_of_event in E. cbn in E. destruct (valid_option (to_int32 opt)); discriminate.
+  - unfold item_of_event in E. cbn [msg_of_event obind] in E.
+    destruct (validate_basic (MVote d pid (to_int32 opt))); discriminate E.
 Qed.
 
 Corollary vote_weight_cast_boundary_rejected d pid os o w :
@@ -154,8 +158,8 @@ Proof.
   intros R I L. destruct (item_of_event (EVotedW d pid os)) as [m| |] eqn:E; [|reflexivity|].
   - apply item_fields_verbatim in E. destruct (E R) as [_ [F _]]. rewrite Forall_forall in F. specialize (F _ I). cbn in F.
     assert (100 < 2 ^ 63) by (vm_compute; reflexivity). lia.
-  - unfold item_of_event in E. destruct os as [|ow os']; cbn in E; [discriminate|].
-    destruct (weights_ok _ _ _); discriminate.
+  - unfold item_of_event in E. destruct os as [|ow os']; cbn [msg_of_event obind] in E; [discriminate E|].
+    destruct (validate_basic _); discriminate E.
 Qed.
 
 Corollary zero_amount_rejected d v : item_of_event (EDelegated d v (Some 0)) = Err.
